@@ -90,17 +90,21 @@ structure FromEnv where
   fields : List EnvField
   deriving DecidableEq, Repr
 
-/-- `build_Authentication_from_env`: built with bare `to_case`, not with the sanitiser -/
-def fromEnv (security : List AuthStrategy) (service : Text) : Option FromEnv :=
+/-- `build_Authentication_from_env`: names built with the same sanitiser as the enum definition -/
+def fromEnv (security : List AuthStrategy) (service : Text) : Except Panic (Option FromEnv) :=
   match security with
-  | [] => none
+  | [] => .ok none
   | .token name fields :: _ =>
-    some { variant := toPascal name,
-           fields := fields.map fun f => { field := toSnake f.name, envVar := qualifiedEnvVar service f.name,
-                                           base64 := (match f.loc with | .basic => true | _ => false) } }
-  | .noAuth :: _ => some { variant := cs!"NoAuth", fields := [] }
+    match sanitizeStruct name, mapM' (fun f => sanitize f.name) fields with
+    | .ok v, .ok ids =>
+      .ok (some { variant := v,
+                  fields := (fields.zip ids).map fun (f, i) =>
+                    (⟨i, qualifiedEnvVar service f.name, (match f.loc with | .basic => true | _ => false)⟩ : EnvField) })
+    | .error e, _ => .error e
+    | _, .error e => .error e
+  | .noAuth :: _ => .ok (some { variant := cs!"NoAuth", fields := [] })
   | .oauth2 _ _ _ _ :: _ =>
-    some { variant := cs!"OAuth2", fields := [{ field := cs!"access", envVar := qualifiedEnvVar service cs!"access_token", base64 := false },
-                                               { field := cs!"refresh", envVar := qualifiedEnvVar service cs!"refresh_token", base64 := false }] }
+    .ok (some { variant := cs!"OAuth2", fields := [{ field := cs!"access", envVar := qualifiedEnvVar service cs!"access_token", base64 := false },
+                                               { field := cs!"refresh", envVar := qualifiedEnvVar service cs!"refresh_token", base64 := false }] })
 
 end Ln
